@@ -1,25 +1,30 @@
 """C06 — fan-out never lets one consumer's mutation reach another consumer."""
 import os
+import re
 import vlib
 
 
 class P(vlib.Prop):
     pid = "C06"
     coq_dirs = ["Common", "C06", "Generated"]
-    coq_targets = ["C06/Properties.vo", "C06/Witness.vo", "C06/Harness.vo"]
+    coq_targets = ["C06/Properties.vo", "C06/Witness.vo", "C06/Clauses.vo", "C06/TransDiff.vo"]
     properties_module = "C06.Properties"
     properties_file = "C06/Properties.v"
     instance_obligations = []
-    harness_module = "C06.Harness"
+    harness_module = "C06.Clauses"   # re-exports C06.Harness; check_all = check_case && prop_ok
+    check_fn = "check_all"
     case_type = "vcase"
     shard = 220
     harnesses = [
-        vlib.Harness("fanout", "internal/fanoutconsumer", ".", {"zz_verif_c06_test.go": "C06/fanout_test.go"},
-                     "^TestVerifC06(Logs|Metrics|Traces|Profiles)$", "fanoutconsumer"),
+        vlib.Harness("fanout", "internal/fanoutconsumer", ".",
+                     {"zz_verif_c06_test.go": "C06/fanout_test.go", "zz_verif_c06_session_test.go": "C06/session_test.go"},
+                     "^TestVerifC06(Logs|Metrics|Traces|Profiles|Session)$", "fanoutconsumer"),
         vlib.Harness("graph", "service", "./internal/graph/", {"zz_verif_c06_test.go": "C06/graph_test.go"},
                      "^TestVerifC06Graph$", "graph"),
         vlib.Harness("router", "connector", ".", {"zz_verif_c06_test.go": "C06/router_test.go"},
                      "^TestVerifC06Router$", "connector"),
+        vlib.Harness("xrouter", "connector/xconnector", ".", {"zz_verif_c06_test.go": "/verif/work/C06/xrouter_test.go"},
+                     "^TestVerifC06XRouter$", "xconnector"),
     ]
     rule = ("fanout (one test function per signal file: logs, metrics, traces, profiles): EVERY capability vector of "
             "length 0..5 (quick) / 0..7 (thorough) x {mutable, read-only input}, plus random vectors of length 6..12; "
@@ -28,6 +33,8 @@ class P(vlib.Prop):
             "the call or from a goroutine, between any two consumer calls and after ConsumeX returned) and a caller's context "
             "that is live / cancelled / past its deadline, ending before ConsumeX, while the k-th consumer call is in progress "
             "(that consumer fails with the context error) or after the return. "
+            "sessions (TestVerifC06Session): one fan-out object, 1-3 deliveries with different payloads, sequential or re-entrant, "
+            "writes on current and on retained payloads, every capability vector of length 1..4 (thorough 1..5) + random. "
             "graph: real graphs built by service/internal/graph.Build from generated pipeline trees (processor and "
             "exporter capability vectors, same-signal connectors feeding 1..3 further pipelines), advertised "
             "MutatesData of every pipeline and of the consumer handed to the receiver compared with the model; one payload "
@@ -35,6 +42,8 @@ class P(vlib.Prop):
             "consumer tree with every component's arrival (cell, read-only, markers) and final markers compared with TreeModel.v. "
             "router: connector.NewXRouter over 1..3 pipelines (every capability vector, every selection of length 1..3, "
             "repetitions included) and random larger ones: capability of Consumer(ids...) and of the router, invocation order. "
+            "xrouter: the same router cases for xconnector.NewProfilesRouter. Every case is checked twice: against the model and by the "
+            "decidable clause checker Clauses.prop_ok over the observed behaviour alone. "
             "A fan-out case is non-trivial when it has >= 2 consumers or a mutating one; a graph case when the "
             "tree has >= 2 components; a router case when >= 2 pipelines are selected or the selection is all-mutating; "
             "distinct = distinct case terms.")
@@ -51,6 +60,65 @@ class P(vlib.Prop):
         d = os.path.join(vlib.VERIF, "props", "C06")
         vlib.go2coq(ctx, "internal/fanoutconsumer", os.path.join(d, "t1_fanout.json"), "C06FanCap")
         vlib.go2coq(ctx, "service", os.path.join(d, "t1_capwrap.json"), "C06CapWrap")
+        self.assemble_xrouter(ctx)
+
+    @staticmethod
+    def assemble_xrouter(ctx=None):
+        """xconnector (profiles router) lives in its own module/package: its harness file is the generic part of
+        harness/C06/router_test.go + the profiles adapter harness/C06/xrouter_profiles.go.part."""
+        h = os.path.join(vlib.VERIF, "harness", "C06")
+        src = open(os.path.join(h, "router_test.go")).read()
+        a, b = src.index("type vRtOps["), src.index("var vRtLogs =")
+        c, e = src.index("func vRunRouter["), src.index("func TestVerifC06Router(")
+        out = open(os.path.join(h, "xrouter_profiles.go.part")).read() + "\n" + src[a:b] + "\n" + src[c:e]
+        os.makedirs(os.path.join(vlib.VERIF, "work", "C06"), exist_ok=True)
+        open(os.path.join(vlib.VERIF, "work", "C06", "xrouter_test.go"), "w").write(out)
+
+    # names of the clauses checked by coq/C06/Clauses.v delivery_clauses, in order
+    CLAUSES = ["every-consumer-invoked-exactly-once", "content-received-equals-content-sent",
+               "returned-error-aggregates-all-failures", "payload-shared-only-by-nonmutating-consumers-and-read-only",
+               "mutating-consumer-gets-private-mutable-data", "consumer-observes-only-its-own-writes",
+               "fanout-capability-exact", "declared-mutator-never-panics", "caller-context-passed-through",
+               "payload-fresh-in-every-delivery"]
+    OTHER = {"CPipe": ["pipeline-capability-exact"], "CTree": ["receiver-fanout-capability-exact", "pipeline-capability-exact"],
+             "CGraph": ["component-sees-exactly-its-upstream-mutations"], "CRouter": ["router-fanout-clauses"]}
+
+    def clause_name(self, term, k):
+        cons = term.lstrip("(").split(" ", 1)[0]
+        if cons == "CSess":
+            d, c = divmod(k, 100)
+            return "delivery-%d-%s" % (d - 1, self.CLAUSES[c - 1] if 1 <= c <= len(self.CLAUSES) else "clauses")
+        names = self.CLAUSES if cons == "CFan" else self.OTHER.get(cons, [])
+        return names[k - 1] if 1 <= k <= len(names) else "clause-%d" % k
+
+    def extra_checks(self, ctx):
+        """Failing-input search, part 1: on every case where check_all fails, evaluate the decidable clause checker
+        on the OBSERVED behaviour; a violated clause makes that case the failing input.  Part 2: a broken obligation
+        over a translated function: enumerate its domain for arguments where translation and model differ."""
+        ms = [m for m in ctx.mismatches if len(m["term"]) < 15000][:12]
+        if ms and not any(f["kind"].startswith("clause-") for f in ctx.oracle):
+            expr = "[" + "; ".join("(%d, diag %s)" % (i, m["term"]) for i, m in enumerate(ms)) + "]"
+            out = vlib.coq_eval_term(ctx, self.harness_module, expr)
+            res = re.findall(r"\((\d+),\s*\((true|false),\s*(\d+)\)\)", out)
+            nviol = 0
+            for idx, agree, k in res:
+                m = ms[int(idx)]
+                k = int(k)
+                if k > 0:
+                    nviol += 1
+                    name = self.clause_name(m["term"], k)
+                    ctx.oracle.append({"kind": "clause-" + name, "term": m["term"], "harness": m["harness"],
+                                       "detail": "the observed behaviour of the implementation violates clause '%s' "
+                                                 "(Clauses.prop_ok = false; model agrees with implementation: %s)" % (name, agree)})
+            ctx.log("clause checker on %d disagreeing case(s): %d violate a clause" % (len(res), nviol))
+        if any("Translated.v" in (w + d) for w, d in ctx.broken):
+            try:
+                vlib.coq_make(ctx, ["C06/TransDiff.vo"])
+            except vlib.Broken:
+                pass
+            out = vlib.coq_eval_term(ctx, "C06.TransDiff", "fan_cap_diffs")
+            ctx.log("translated xConsumer.Capabilities differs from the model at (file, [(mutating, non-mutating)]): " + out[:400])
+            ctx.stats["translated.fan_cap_diffs"] = out[:2000]
 
     assumptions = [
         "cloneX = NewX + CopyTo yields a payload equal to and sharing nothing with its source (deep-copy correctness is property C07; the direct oracle re-checks it on every generated payload)",
